@@ -16,6 +16,12 @@ Definition tff_type_eqb (a b : tff_type) : bool :=
 Lemma tff_type_eqb_spec a b : reflect (a = b) (tff_type_eqb a b).
 Proof. destruct a, b; cbn; constructor; congruence. Qed.
 
+(* signatures of declared identifiers: `t: $tType`, `f: (a * b) > r` / `c: r`, `p: (a * b) > $o` / `p: $o` *)
+Inductive tff_sig :=
+| SigType
+| SigFun (args : list tff_type) (res : tff_type)
+| SigPred (args : list tff_type).
+
 (* terms: unsigned $int numerals, variables (upper words), applications f(t1,..,tn) of a functor
    (lower word or $-word; n = 0 is a constant).  $uminus/$sum/$difference/$product,
    f__integer__/f__symbolic__, c__infimum__/c__supremum__ are ordinary functors here; their
@@ -76,4 +82,4 @@ Definition is_dollar_word (w : string) : bool :=
 (* a functor position accepts lower words and $-words *)
 Definition is_functor_word (w : string) : bool := is_lower_word w || is_dollar_word w.
 
-(* EXTRACT: tff_formula token render is_upper_word is_lower_word is_functor_word tff_type_eqb *)
+(* EXTRACT: tff_sig tff_formula token render is_upper_word is_lower_word is_functor_word tff_type_eqb *)
